@@ -320,9 +320,28 @@ def _check(case):
         col.check(bool(np.array_equal(pA.arr(nm), pP.arr(nm), equal_nan=True)), "history:repeated_call_differs",
                   lambda: f"{nm}: the same simulation repeated on the same model object differs by {float(np.nanmax(np.abs(pA.arr(nm) - pP.arr(nm)))):.3e}")
 
+    labels = []
+    # ---- 8. a model without any lag needs no initial condition: an input databox that holds the shocks only ----
+    if lm.max_lag_lead(spec)[0] == 0:
+        dbb = ir.Databox()
+        zeros_ = tuple(0.0 for _ in range(T + Fmax + 1))
+        for s_ in [x for x in lm.shock_names(spec) if x]:
+            dbb[s_] = ir.Series(start=start, values=zeros_)
+            dbb["ant_" + s_] = ir.Series(start=start, values=zeros_)
+        for w_ in [x for x in lm.mshock_names(spec) if x]:
+            dbb[w_] = ir.Series(start=start, values=zeros_)
+        sd.apply_shocks(dbb, spec, start, ush, ash, case["mshocks"])
+        Pb = api("simulate_shocks_only_input", m.simulate, dbb, span, method="first_order", deviation=dev, **fsf)
+        pB = sd.Paths(Pb, spec, start, 0, T - 1)
+        for nm in spec["names"] + lm.meas_names(spec):
+            a_, b_ = pB.arr(nm), pP.arr(nm)[Lmax:]
+            d_ = float(np.max(np.abs(a_ - b_))) if np.all(np.isfinite(a_)) else float("inf")
+            col.check(d_ <= 1e-9 * scale, "no_lag_model:shocks_only_input_differs",
+                      lambda: f"{nm}: a model without lags simulated from an input databox that holds the shocks only differs by {d_:.3e} "
+                              f"from the simulation whose input also holds (irrelevant) variable values\n{lm.source(spec)}")
+        labels.append("no_lag_model_bare_input")
     # ---- 3. time consistency -------------------------------------------------
     s = case["split"]
-    labels = []
     if 1 <= s <= N - 1 and all(a_[1] < s for a_ in ash):
         leg1 = api("simulate_leg1", m.simulate, db, start >> (start + s - 1), method="first_order", deviation=dev)
         db2 = db.copy()
